@@ -260,7 +260,6 @@ local macro "c04b_tail " x:term : tactic => `(tactic| (
 
 theorem load_layout_independent (inv : Arr → Arr) (d : Dir) (t : Arr)
     (hks : ∀ n ∈ d.map (·.1), n ∈ ksNames)
-    (hs : ∀ s, d.lookup "spike_times.npy" = some s → allNum s = true)
     (ht : monotone (scrub t).data = true)
     (v : View) (d' : Dir) (h : load inv d = .ok (v, d')) :
     ∃ v' d'', load inv (toALF d t) = .ok (v', d'') ∧
@@ -278,6 +277,17 @@ theorem load_layout_independent (inv : Arr → Arr) (d : Dir) (t : Arr)
   have k3 := read_ks0 d ["spike_templates.npy", "spikes.templates*.npy"] "spike_templates.npy" hks (by decide) (by decide)
   have k4 := find_ks0 d ["spike_clusters.npy", "spikes.clusters*.npy"] "spike_clusters.npy" hks (by decide) (by decide)
   have k5 := find_ks0 d ["spike_templates.npy", "spikes.templates*.npy"] "spike_templates.npy" hks (by decide) (by decide)
+  -- no conflict of cluster files in either layout: `d` has no ALF name, `toALF d t` no KiloSort name
+  have k6 : findPath d ["spikes.clusters*.npy"] = none := by
+    rw [find_ks0 d _ "spikes.clusters.npy" hks (by decide) (by decide),
+      lookup_none_of_not_mem d _ (fun hm => by have := hks _ hm; revert this; decide)]
+    rfl
+  have a8 : findPath (toALF d t) ["spike_clusters.npy"] = none := by
+    rw [findPath_eq_of_unique (toALF d t) _ "spike_clusters.npy"
+      (fun m hm => (by decide : ∀ m ∈ alfNames, ∀ p ∈ ["spike_clusters.npy"], globMatch p m = true → m = "spike_clusters.npy") m
+        (toALF_names d t hks m hm)) (by decide),
+      lookup_none_of_not_mem _ _ (fun hm => by have := toALF_names d t hks _ hm; revert this; decide)]
+    rfl
   have a0 : (toALF d t).lookup "spike_times.npy" = none :=
     lookup_none_of_not_mem _ _ (fun hm => by have := toALF_names d t hks _ hm; revert this; decide)
   have a1 : readFile (toALF d t) ["spikes.times*.npy"] = some t := by
@@ -292,15 +302,16 @@ theorem load_layout_independent (inv : Arr → Arr) (d : Dir) (t : Arr)
   have a5 := find_alf0 d t ["spike_templates.npy", "spikes.templates*.npy"] "spike_templates.npy" hks (by decide) (by decide) (by decide) (by decide)
   have a6 := lookup_toALF0 d t "spike_clusters.npy" hks (by decide) (by decide)
   have a7 := lookup_toALF0 d t "spike_templates.npy" hks (by decide) (by decide)
-  simp only [load, bind, Except.bind, pure, Except.pure, throw, throwThe, MonadExceptOf.throw, k1, k2, k3, k4, k5] at h
-  simp only [load, bind, Except.bind, pure, Except.pure, throw, throwThe, MonadExceptOf.throw, a0, a1, a1', a2, a3, a4, a5]
+  simp only [load, bind, Except.bind, pure, Except.pure, throw, throwThe, MonadExceptOf.throw, k1, k2, k3, k4, k5, k6,
+    Option.isSome_none, Bool.and_false, Bool.false_eq_true, if_false] at h
+  simp only [load, bind, Except.bind, pure, Except.pure, throw, throwThe, MonadExceptOf.throw, a0, a1, a1', a2, a3, a4, a5, a8,
+    Option.isSome_none, Bool.false_and, Bool.false_eq_true, if_false]
   cases hst : d.lookup "spike_times.npy" with
   | none => simp only [hst] at h; cases h
   | some s =>
-  have hsn : scrub s = s := scrub_of_allNum s (hs s hst)
   simp only [hst] at h
-  simp only [hsn, ht, Bool.not_true, Bool.false_eq_true, if_false]
-  cases hm : monotone (squeeze s).data with
+  simp only [ht, Bool.not_true, Bool.false_eq_true, if_false]
+  cases hm : monotone (scrub s).data with
   | false => simp [hm] at h
   | true =>
   simp only [hm, Bool.not_true, Bool.false_eq_true, if_false] at h
